@@ -1803,6 +1803,12 @@ impl TypeLayout {
         let lhs = lhs.disregard_optional()?;
         let other = other.disregard_optional()?;
 
+        // a present optional compares like the plain value it holds: `bool? == bool`,
+        // `[int...]? == [int...]`
+        if matches!(op, Eq | Neq) && lhs == other && lhs.supports_equ() {
+            return Some(TypeLayout::Native(NativeType::Bool));
+        }
+
         match op {
             Op::Is => return Some(TypeLayout::Native(NativeType::Bool)),
             Op::AddAssign => return lhs.get_output_type(other, &Op::Add, flags),
